@@ -234,6 +234,13 @@ func Run(c *fw.Ctx) {
 		seenKind[in.kind]++
 	}
 
+	// work queue: largest encodings first (the heaviest values must not form the tail); idx stays the catalogue index
+	queue := make([]int, len(ins))
+	for i := range queue {
+		queue[i] = i
+	}
+	sort.SliceStable(queue, func(a, b int) bool { return ins[queue[a]].size > ins[queue[b]].size })
+
 	var mu sync.Mutex
 	type agg struct {
 		values, multi, redL2, redCore  int
@@ -257,10 +264,11 @@ func Run(c *fw.Ctx) {
 		go func() {
 			defer wg.Done()
 			for {
-				i := int(next.Add(1) - 1)
-				if i >= len(ins) || c.Over() {
+				q := int(next.Add(1) - 1)
+				if q >= len(ins) || c.Over() {
 					return
 				}
+				i := queue[q]
 				e := &explorer{c: c, idx: i, in: ins[i]}
 				var st stats
 				t0 := time.Now()
